@@ -28,7 +28,6 @@ FS = [1e-3, 1.0, 1e3, 1e6, 1e8, 1e10, 1e12, 1e14, 1e16]
 
 
 K_MULTI = "c08-largeom2-multiwyckoff"
-K_OS = "c08-largeom2-originstates"
 K_CANCEL = "c08-largeom2-LsvL1vv-cancellation"
 
 
@@ -103,7 +102,7 @@ def run(ck):
                         ck.violation("standard and large-omega2 algorithms: Lss differs by %.3g relative at scale %g (allowed %.3g)" % (ess, f, tol), dd, key="c08-agree")
                     if esv > tol:
                         ck.violation("standard and large-omega2 algorithms: Lsv/L1vv differ by %.3g relative at scale %g (allowed %.3g)" % (esv, f, tol), dd,
-                                     key=(K_OS if polar else "c08-agree"))
+                                     key="c08-agree")
             res[f] = L
         # smooth approach to the limit.  References: Lss -> value at the largest f; Lsv/L1vv -> value at f = 1e10
         # (beyond that the known cancellation sets in).  Regimes with known failures are keyed separately.
@@ -120,7 +119,7 @@ def run(ck):
                     ck.violation("Lss does not approach its large-rate limit smoothly: |Lss(f=%g) - limit| = %.3g > 3A/f = %.3g" % (f, dlt, 3 * A / f),
                                  {"crystal": nm, "cutoff": cut, "thermo": {k: np.asarray(v).tolist() for k, v in th.items()}, "f": f,
                                   "L_f": [x.tolist() for x in res[f]], "L_limit": [x.tolist() for x in lim]}, key=key)
-        fref = 1e6 if (multi or polar) else 1e10
+        fref = 1e6 if multi else 1e10   # origin-state crystals behave like plain ones since fix b4a4433
         if fref in res and 1e3 in res:
             lim = res[fref]; scale = np.abs(lim[0]).max()
             A = max(np.abs(a - b).max() for a, b in zip(res[1e3][2:], lim[2:])) * 1e3
@@ -129,7 +128,6 @@ def run(ck):
                 dlt = max(np.abs(a - b).max() for a, b in zip(res[f][2:], lim[2:]))
                 if dlt > 3 * A / min(f, fref) + 1e-5 * smax * scale:   # floor: cancellation noise of the f=1e10 reference itself (~1e-16*f)
                     if multi and f > 1e6: key = K_MULTI
-                    elif polar and f > 1e6: key = K_OS
                     elif f >= 1e12: key = K_CANCEL
                     else: key = "c08-smooth-LsvL1vv"
                     ck.violation("Lsv/L1vv do not approach their large-rate limit smoothly: deviation %.3g at f=%g (allowed %.3g)" % (dlt, f, 3 * A / min(f, fref) + 1e-5 * smax * scale),
@@ -138,7 +136,7 @@ def run(ck):
         # (b') the algorithm choice must not depend on the absolute time unit: all rates scaled by g (omega0/1/2 prefactors)
         # must scale Lss by g exactly, also where the exchange is 1e12..1e14 x the bare rate (Lss is accurate there for
         # plain crystals; Lsv/L1vv are in the known cancellation regime and not compared)
-        if not multi and not polar:
+        if not multi:
             for g in (1e-13, 1e9):
                 for f in (1e12, 1e14):
                     if f not in res: continue
@@ -160,7 +158,7 @@ def run(ck):
                                       "L_scaled_over_g": [(x / g).tolist() for x in Lg], "L": [x.tolist() for x in res[f]]}, key="c08-timeunit")
         # (b'') inequivalent exchange classes separated by nine decades (one class 1e9 x the others): both forced algorithms must
         # still agree (standard error ~ eps * 1e9) and Lss must stay positive semidefinite
-        if not multi and not polar and len(th["preT2"]) >= 2:
+        if not multi and len(th["preT2"]) >= 2:
             for k0 in range(len(th["preT2"])):
                 t = {k: np.array(v, dtype=float) for k, v in th.items()}
                 t["preT2"][k0] = t["preT2"][k0] * 1e9
@@ -194,9 +192,10 @@ def run(ck):
                     d.Lij = lambda *a, **kw: orig(*a, large_om2=1e-30)   # force the large algorithm inside vm.inject
                     I, o, errs, npolar = compare_injected(ck, d, args, M, nm, None)
                 finally:
-                    del d.Lij
+                    d.Lij = orig
                 ck.case(key=("oracle", nm, f, [np.asarray(v).round(10).tolist() for v in th.values()]), nontrivial=True, kind="oracle-large:f=%g" % f)
                 for k in ("Lss", "Lsv", "L1vv"):
+                    errs[k] = max(errs[k], errs[k + "_polar"])   # all components, also in the span of a site vector basis
                     if errs[k] > 1e-7:
                         ck.violation("forced large-omega2 algorithm: %s differs from the exact torus chain by %.3g (f=%g)" % (k, errs[k], f),
                                      {"crystal": nm, "cutoff": cut, "f": f, "M": M, "thermo": {kk: np.asarray(v).tolist() for kk, v in t.items()},
